@@ -609,6 +609,9 @@ func (Prop) SelfTest() error {
 		if names[e.name] {
 			return fmt.Errorf("duplicate entry point binding %q", e.name)
 		}
+		if strings.ContainsAny(e.name, " \t\n") {
+			return fmt.Errorf("entry point name %q contains white space (finding keys must be single tokens)", e.name)
+		}
 		names[e.name] = true
 		for _, s := range e.seeds {
 			b, err := s.tryGet()
